@@ -9,7 +9,8 @@ SPEC = {
     "files": ["src/payload/validation.rs"],
     "harnesses": {
         "quick": ["c08_keep_prefix_v4_one_block", "c08_keep_prefix_nothing_rejected", "c08_keep_prefix_other_family"],
-        "thorough": ["c08_keep_prefix_v4_two_blocks"],
+        # c08_keep_prefix_v4_two_blocks (two symbolic rejected blocks) did not finish within 7200 s / 14 GB: not in a tier
+        "thorough": ["c08_keep_prefix_v4_one_block", "c08_keep_prefix_nothing_rejected", "c08_keep_prefix_other_family"],
     },
     "harness_file": {"*": ("validation.rs", "src/payload/validation.rs")},
     "timeout": {"quick": 900, "thorough": 7200},
@@ -22,7 +23,8 @@ def run(res, tier):
         "rpki::repository::resources::{IpBlocksBuilder::{push,finalize}, IpBlocks::intersects_block, Prefix, Addr::{to_min,to_max}} (dependency code, real)",
     ]
     res.bounds += [
-        "rejected set built from exactly 1 (quick) / 2 (thorough) symbolic IPv4 prefixes (any bits, any length 0..32); "
+        "rejected set built from exactly 1 symbolic IPv4 prefix (any bits, any length 0..32; a harness with 2 symbolic "
+        "rejected prefixes exists but exceeds 7200 s and is in no tier); "
         "tested prefix: any IPv4 prefix; plus: empty rejected set with any IPv4/IPv6 prefix; rejected IPv4 block "
         "against any IPv6 prefix",
         "reference: integer interval overlap lo1 <= hi2 and lo2 <= hi1",
